@@ -847,4 +847,47 @@ theorem tie_withCors (s : Server) (m p : String) :
     s.serveHTTP m p = (if s.cors && condCorsPreflight m then .preflight else .router (s.router.serveHTTP m p)) ∧
     condCorsNAOptions m = condCorsPreflight m := ⟨rfl, rfl, rfl, rfl, rfl⟩
 
+/-! ### round 5c: every structure `ServeHTTP` reads and `Handle` writes (class of seeded change C09-9) -/
+
+abbrev Access := String × String × Nat × String
+
+def Access.isWrite (a : Access) : Bool := a.2.1 == "write" || a.2.1 == "write-index"
+
+/-- **`Handle` writes nothing before a validation or a failing `Add` can return, except a fresh EMPTY tree** (model
+`handleM`: the validations return the router untouched; `r1` stores `(method, newNode none)`; everything else is
+written by `tree.Add`, which detects a duplicate before writing: `addM_dup_unchanged`).  Its accesses to the router:
+one lookup `pr.trees[method]` after the two validation returns, one store `pr.trees[method] = tree` of the tree
+created by `search.NewTree()` on the line before — never the handler, no other field. -/
+theorem tie_access_handle :
+    handleAccess = [("trees", "read-index", 2, "pr.trees[method]"), ("trees", "write-index", 3, "tree")] ∧
+    (handleAccess.filter Access.isWrite).all (fun a => a.1 == "trees" && decide (a.2.2.1 ≥ 2) && a.2.2.2 == "tree") = true ∧
+    (handleStmts.zip (handleStmts.drop 1)).contains ("tree = search.NewTree()", "pr.trees[method] = tree") = true ∧
+    (∀ (r : Router) (m p : String) (item : Option H),
+      (!validMethod m || !rooted p) = true → (handleM r m p item).1 = r) := by
+  refine ⟨rfl, by decide, by decide, ?_⟩
+  intro r m p item h
+  unfold handleM
+  cases hv : validMethod m
+  · simp
+  · cases hr : rooted p
+    · simp
+    · simp [hv, hr] at h
+
+/-- **`ServeHTTP` consults only the trees** to pick the handler (everything before its first `return`), and the whole
+request path (`ServeHTTP`, `methodsAllowed`, `handleNotFound`) reads — never writes — exactly the three fields the
+struct has: `trees`, `notAllowed`, `notFound` (model `PatRouter`: `core`, `notAllowed`, `notFound`; `serve` reads only
+`r.trees`).  The setters write one field each; `Tree.Add` / `Tree.Search` touch only `t.root`. -/
+theorem tie_access_serve :
+    ((serveAccess.filter fun a => a.2.2.1 == 0).map (·.1)) = ["trees"] ∧
+    ((serveAccess ++ methodsAllowedAccess ++ handleNotFoundAccess).any Access.isWrite) = false ∧
+    ((serveAccess ++ methodsAllowedAccess ++ handleNotFoundAccess).filter (fun a => a.2.1 != "call")).all
+      (fun a => ["trees", "notAllowed", "notFound"].contains a.1) = true ∧
+    ((serveAccess.filter fun a => a.2.1 == "call").map (·.1)) = ["methodsAllowed", "handleNotFound"] ∧
+    patRouterFields = ["trees map[string]*search.Tree", "notFound http.Handler", "notAllowed http.Handler"] ∧
+    setNotFoundAccess = [("notFound", "write", 0, "handler")] ∧
+    setNotAllowedAccess = [("notAllowed", "write", 0, "handler")] ∧
+    treeAddAccess = [("root", "read", 2, "t.root")] ∧
+    treeSearchAccess = [("next", "call", 1, "t.next(t.root, route[1:], &result)"), ("root", "read", 1, "t.root")] := by
+  refine ⟨by decide, by decide, by decide, by decide, rfl, rfl, rfl, rfl, rfl⟩
+
 end GoZero.C09.Tie
